@@ -108,8 +108,10 @@ theorem rcptTo_congr (hrn : ∀ f tos, normAns (hr f tos) = normAns (e.hookRcpt 
 theorem handleLine_congr (hmn : ∀ a, normAns (hm a) = normAns (e.hookMail a))
     (hrn : ∀ f tos, normAns (hr f tos) = normAns (e.hookRcpt f tos)) (s : Sess) (line : Bytes) (acc : List Ev) :
     handleLine (withHooks e hm hr) s line acc = handleLine e s line acc := by
+  have h1 : ∀ t, ehloLines (withHooks e hm hr) t = ehloLines e t := fun _ => rfl
+  have h2 : (withHooks e hm hr).tlsEnabled = e.tlsEnabled := rfl
   unfold handleLine handleCmd
-  simp only [mailFrom_congr e hm hr hmn, rcptTo_congr e hm hr hrn]
+  simp only [mailFrom_congr e hm hr hmn, rcptTo_congr e hm hr hrn, h1, h2]
 
 theorem storeLoop_congr (s : Sess) (ib : Inbound) (date : Int) (data : Bytes) (mbs : List Bytes) (acc : List Ev) :
     storeLoop (withHooks e hm hr) s ib date data mbs acc = storeLoop e s ib date data mbs acc := by
@@ -139,7 +141,8 @@ theorem loop_congr (hmn : ∀ a, normAns (hm a) = normAns (e.hookMail a))
 theorem run_congr (hmn : ∀ a, normAns (hm a) = normAns (e.hookMail a))
     (hrn : ∀ f tos, normAns (hr f tos) = normAns (e.hookRcpt f tos)) (budget : Option Nat) (inp : Bytes) :
     run (withHooks e hm hr) budget inp = run e budget inp := by
+  have h1 : initFor (withHooks e hm hr) budget = initFor e budget := rfl
   unfold run
-  simp only [loop_congr e hm hr hmn hrn]
+  simp only [loop_congr e hm hr hmn hrn, h1]
 
 end Ibx.Lemmas.SmtpHooks
